@@ -4,6 +4,7 @@
      contracts/version_str.py (Version.__str__);
   B  derived search pattern (_convert_to_pep440 is unbounded string surgery): grammar patterns with
      prefix '' / 'v' x part values x tags - bounded, never counted as proved."""
+import itertools
 import random
 import re
 
@@ -40,11 +41,25 @@ def pep440_case(pattern, order, vals):
         return False, f"text written for {{pep440_version}} {written!r} (pattern {pep_pattern!r}) is not a PEP 440 version; version is {ver!r}"
     if w != v:
         return False, f"{{pep440_version}} {written!r} != {{version}} {ver!r} under PEP 440 (derived pattern {pep_pattern!r})"
-    if str(pv.Version(version.to_pep440(ver))) != str(w):
-        return False, f"[trailing_zero_release] PEP440 line {version.to_pep440(ver)!r} and written {written!r} are equal versions but differ in the number of release components"
+    printed = version.to_pep440(ver)
+    try:
+        pp = pv.Version(printed)
+    except pv.InvalidVersion:
+        return False, f"PEP440 line {printed!r} printed for {ver!r} is not a PEP 440 version"
+    if pp != v:
+        return False, f"PEP440 line {printed!r} printed by test/show is not the version {ver!r} (written text {written!r})"
+    if printed != str(pp):
+        return False, f"PEP440 line {printed!r} is not normalised ({str(pp)!r})"
+    if str(pp) != str(w):
+        strip = lambda r: tuple(reversed(list(itertools.dropwhile(lambda x: x == 0, reversed(r)))))
+        if pp.release != w.release and strip(pp.release) == strip(w.release) and (pp.epoch, pp.pre, pp.post, pp.dev, pp.local) == (w.epoch, w.pre, w.post, w.dev, w.local):
+            return False, f"[trailing_zero_release] PEP440 line {printed!r} and written {written!r} are equal versions but differ in the number of release components"
+        return False, f"PEP440 line {printed!r} and written {written!r} are spelled differently after normalisation"
     # the stated normalisation rules: no v prefix, no leading zeros after the first component, short tag + number
     # (PEP 440's canonical '.' in front of post/dev is not demanded by the statement)
-    if re.sub(r"(?<=\d)(post|dev)", r".\1", written) != str(w) and not re.fullmatch(r"0\d*", written.split(".")[0].split("!")[-1]) or written.startswith("v"):
+    # "every dot-separated numeric component *after the first*": leading zeros of the first component are allowed
+    first_stripped = re.sub(r"^0+(?=\d)", "", written)
+    if re.sub(r"(?<=\d)(post|dev)", r".\1", first_stripped) != str(w) or written.startswith("v"):
         return False, f"{written!r} is not in PEP 440 normal form ({str(w)!r}): v prefix / leading zeros / long tag spelling"
     rx = v2patterns.compile_pattern(pattern, "{pep440_version}").regexp
     m = rx.match(written)
